@@ -12,7 +12,7 @@
         if not (port in terminated and ([repaired: failed or] checklist[port] empty)): start a new read on port
 
 Ports are FIFO streams that end with their termination token (the producer terminated). `fixed = true` is the
-repaired loop (fixes/C04-loop-combinator-failed-input.patch): after a FAILED / CANCELLED termination the reads of
+repaired loop (fix 4e89c00, the current source; extracted on every run as `Gen.loopStopsAfterFailure`): after a FAILED / CANCELLED termination the reads of
 already terminated ports are cancelled and a terminated port is never read again. -/
 namespace SFV.LoopComb
 
